@@ -47,7 +47,7 @@ _PURE_BUILTINS = {
     "reversed": lambda x: list(reversed(x)), "any": any, "all": all, "abs": abs, "chr": chr, "ord": ord, "float": float,
     "divmod": divmod, "round": round, "pow": pow, "next": next, "iter": iter,
 }
-_MATH = {"isfinite", "isinf", "isnan", "log10", "log2", "log", "floor", "ceil", "prod", "sqrt", "copysign", "fabs"}
+_MATH = {"isfinite", "isinf", "isnan", "log10", "log2", "log", "floor", "ceil", "prod", "sqrt", "copysign", "fabs", "exp"}
 _METHODS = {
     str: {"count", "replace", "index", "find", "rfind", "join", "split", "startswith", "endswith", "partition", "strip", "lstrip", "rstrip"},
     list: {"append", "extend", "pop", "index", "count", "insert", "copy", "remove", "sort", "reverse"},
@@ -281,6 +281,9 @@ class Mini:
                 import bisect as _b
                 seq, x = self.ev(e.args[0], env), self.ev(e.args[1], env)
                 return (_b.bisect_left if fn.attr == "bisect_left" else _b.bisect_right)(seq, x)
+            if isinstance(fn.value, ast.Name) and fn.value.id in self.classes and fn.attr == "__new__":
+                import types as _types
+                return _types.SimpleNamespace(__cls__=fn.value.id)
             if isinstance(fn.value, ast.Name) and fn.value.id == "heapq" and "heapq" not in env:
                 import heapq as _hq
                 if fn.attr not in ("heappush", "heappop", "heapify", "heappushpop", "nsmallest", "nlargest"):
